@@ -103,7 +103,8 @@ def run(ctx):
             kw = dict(width=width, length=length, mode=mode)
             if start is not None:
                 r = rng.random()
-                kw["start_state"] = start if r < 0.4 else (torch.tensor(start) if r < 0.7 else __import__("numpy").array(start))
+                # as a list, or as a NumPy array / tensor of any integer type that holds the symbols
+                kw["start_state"] = start if r < 0.4 else G.in_container(G.pick_container(rng, start, 0.0), start)
             if mode == "nbt":
                 kw["nbt_history_depth"] = depth
             rec["randint"].clear(); rec["randperm"].clear()
